@@ -85,7 +85,7 @@ func (c *Check) gochannelRoles(id string) *GCRoles {
 		return nil
 	}
 	r.SOut = oneField(r.S, TypeIs(tMsgChan))
-	r.SSending = oneField(r.S, TypeIs("sync.Mutex"))
+	r.SSending = oneField(r.S, func(t types.Type) bool { return t.String() == "sync.Mutex" || t.String() == "*sync.Mutex" })
 	r.SClosed = oneField(r.S, TypeIs("bool"))
 	r.SClosing = oneField(r.S, TypeIs("chan struct{}"))
 	r.SCtx = oneField(r.S, TypeIs("context.Context"))
@@ -357,8 +357,10 @@ func gcSafety(c *Check, P string, r *GCRoles) {
 	S := P + ".S"
 	c04FreshCopy(c, S, r)
 	c04HandsOff(c, S+".O1", r)
+	c04SendersStart(c, S+".O1", r)
 	c04Resend(c, S, r)
 	c05OneInFlight(c, S, r)
+	c07Escapable(c, S, r)
 	c07SendCloseExclusion(c, S, r)
 	c07CloseOnce(c, S, r)
 	c07WaitGroup(c, S, r)
